@@ -1,6 +1,21 @@
-"""Tables read off the source (T1).  Filled in per property; see generate()."""
+"""Tables read off the source (T1): collected from tools/tables.d/*.py.
+
+Each module there defines  generate(repo: Path) -> {"<File>.lean": (lean_text, [names], [refusals])}.
+"""
 from __future__ import annotations
+
+import importlib.util
+from pathlib import Path
 
 
 def generate(repo):
-    return {}
+    res = {}
+    for p in sorted((Path(__file__).resolve().parent / "tables.d").glob("*.py")):
+        spec = importlib.util.spec_from_file_location(f"tables_d_{p.stem}", p)
+        m = importlib.util.module_from_spec(spec)
+        spec.loader.exec_module(m)
+        try:
+            res.update(m.generate(Path(repo)))
+        except Exception as e:  # a table that cannot be read is a refusal, never a guess
+            res[f"Table{p.stem}.lean"] = (f"/- table {p.stem} could not be generated: {e} -/\n", [], [f"table {p.stem}: {e}"])
+    return res
